@@ -112,3 +112,18 @@ fn isconst_value_kinds() {
     assert!(!util::is_jsx_attr_value_constant(&v3), "U-isconst: a fragment value is not constant");
     std::mem::forget((v, v2, v3));
 }
+
+// ---- Kani function contracts (the modular route): `ensures` clauses are annotated in place on the build copy of
+// util::is_on / directive::is_directive (lib/kani_run.py CONTRACTS); these harnesses discharge them, and callers may then
+// use the contract instead of the body via #[kani::stub_verified].
+#[kani::proof_for_contract(crate::util::is_on)]
+fn contract_is_on() {
+    let a = any_ascii_atom::<4>();
+    let _ = util::is_on(&a);
+}
+#[kani::proof_for_contract(crate::directive::is_directive)]
+fn contract_is_directive() {
+    let a = any_ascii_atom::<3>();
+    let at = JSXAttr { span: sp(5), name: JSXAttrName::Ident(IdentName { span: DUMMY_SP, sym: a }), value: None };
+    let _ = directive::is_directive(&at);
+}
